@@ -8,8 +8,10 @@ from ..harness import coq, impl
 pid = 'C05'
 gen_modules = ['tr_invariant', 'tr_pin_invariant', 'tr_rest_validators', 'tr_rest_contractsconst']
 model_targets = ['Sem/InvModel.v']
-hand_modelled = ['coq/Sem/InvModel.v: InvariantedClass (__setattr__, __getattribute__, _deal_patched_method, _deal_validate) and InvariantValidator over '
-                 'attribute dictionaries (hand-written; source pinned)']
+hand_modelled = ['coq/Sem/InvModel.v: the state machine of an instance of an invariant class (specification; proved equal to the statements of '
+                 'InvariantedClass regenerated into Gen/Invariant.v, Thm/C05/Refine.v)',
+                 'coq/Sem/InvCode.v: what each statement of _deal_validate / _deal_patched_method / __getattribute__ / __setattr__ / invariant() does '
+                 '(instruction semantics, hand-written); InvariantValidator over a predicate grammar on integer attributes']
 explanation = ('Theorems on the invariant state machine over all histories; correspondence: real deal.inv classes vs the model on random classes x invariant '
                'stacks x histories; independent monitor evaluating the invariants on vars(obj) + class attributes after every step.')
 RULE = ('classes with 2-3 integer attributes (some only class-level), 1-3 stacked invariants in explicit or `_` form over them, histories of <= 10 operations '
